@@ -290,6 +290,38 @@ def p_prereq(s: str) -> bool:
     return R(a_make == a_ninja and a_make == list(a_cdb) and '-DGLOBAL=1' in a_make)
 
 
+MODES = ['copy', 'symlink', 'hardlink']
+
+
+def y_copy(ma: int, ka: int, mb: int, kb: int) -> bool:
+    """two copy_file steps in one project (modes copy / symlink / hardlink; source in the source
+    tree or a generated file in a build subdirectory): each command agrees in the three outputs --
+    a backend emits one shared rule / define per mode, so the spelling of the input must not
+    depend on which step happened to be written first
+    pre: 0 <= ma < 3 and 0 <= mb < 3 and 0 <= ka < 2 and 0 <= kb < 2
+    post: _
+    """
+    build, ctx = _context()
+    gen = ctx['build_step']('sub/gen.txt', cmd=['prog', 'x'])
+    srcs = [lambda: 'data.ini', lambda: gen]
+    ctx['copy_file']('out/a.txt', srcs[ka](), mode=MODES[ma])
+    ctx['copy_file']('sub/b.txt', srcs[kb](), mode=MODES[mb])
+    edges, mk, nf, cdb = _run_handlers(build)
+    ok = True
+    for out in ('out/a.txt', 'sub/b.txt'):
+        a_make = _make_argv(mk, out)
+        a_ninja = _ninja_argv(nf, out)
+        entries = [c for c in cdb._commands if c.get('output') == out]
+        if a_make is None or a_ninja is None or len(entries) != 1:
+            return R(False)
+        a_cdb = entries[0].get('arguments')
+        if a_cdb is None:
+            return R(False)
+        ok = ok and _norm_paths(a_make) == _norm_paths(a_ninja) and \
+            _norm_paths(a_make) == _norm_paths(list(a_cdb))
+    return R(ok)
+
+
 def _run_handlers(build):
     edges = list(build.edges())
     mk = Makefile('build.bfg', gnu=True)
